@@ -214,6 +214,7 @@ SmallPrograms ==
 Cmds == { [cls |-> "next", raw |-> "n\n", bytes |-> <<110, 10>>],
           [cls |-> "print", raw |-> "print flags\n", bytes |-> << >>, what |-> [k |-> "flags"]],
           [cls |-> "garbage", raw |-> "x\n", bytes |-> << >>],
+          [cls |-> "garbage", raw |-> "\n", bytes |-> << >>],
           [cls |-> "quit", raw |-> "q\n", bytes |-> << >>] }
 Scripts == UNION {[1 .. n -> Cmds] : n \in 0 .. MaxScript}
 \* long enough all-next scripts make the stepped run complete
